@@ -5,14 +5,11 @@
    source, the real division model (Div.udivrem, spec proved) and the real multiplication
    model (Mul.umul).
 
-   STATUS.  Closed (no hypothesis beyond canonicity and the 2^57-digit length bound):
-   the whole Montgomery kernel, [monty_modpow], [BigUint::modpow] and [BigInt::modpow] for odd
-   moduli, [modinv] for moduli +-1, the determinacy of the spec.
-   `_partial` theorems carry ONE explicit hypothesis [mul_spec_holds]
-   (= the statement of `umul_spec` of the multiplication area:
-      forall canonical a b, Mul.umul Extracted.mul a b = Ret (enc (val a * val b)))
-   because proofs/MulProofs.v does not contain that theorem yet; they become the full
-   statements (written above each of them) by applying them to it. *)
+   STATUS.  Everything is closed (no hypothesis beyond canonicity and the 2^57-digit length
+   bound): the whole Montgomery kernel, [monty_modpow], [BigUint::modpow], [BigInt::modpow],
+   [plain_modpow] and [modinv] for every modulus, the determinacy of the spec.  The even-modulus
+   and modinv paths multiply with the real model Mul.umul Extracted.mul, whose specification is
+   MulProofs5.umul_spec (property C02; [ModpowInst.mul_spec_proved]). *)
 From BigNum Require Import Base BaseLemmas AddSub Monty Modpow SpecModpow MontyProofs ModinvZ
   ModpowProofs ModpowInst Extracted InstModpow.
 Open Scope Z_scope.
@@ -113,67 +110,63 @@ Theorem C05_imodinv_unit_modulus : forall x s, (s = Plus \/ s = Minus) ->
 Proof. intros x s [-> | ->]; vm_compute; reflexivity. Qed.
 Print Assumptions C05_imodinv_unit_modulus.
 
-(** * Every modulus: modulo the multiplication spec *)
+(** * Every modulus *)
 
-(* FULL STATEMENT:  forall x e m, canon x -> canon e -> canon m -> length m < 2^57 ->
-     r_umodpow modpow x e m = omap enc (spec_umodpow (val x) (val e) (val m)).
-   MISSING: [mul_spec_holds] (umul_spec of the multiplication area). *)
-Theorem C05_umodpow_partial : mul_spec_holds ->
+Theorem C05_umodpow :
   forall x e m, canon x -> canon e -> canon m -> Z.of_nat (length m) < 2 ^ 57 ->
   r_umodpow modpow x e m = omap enc (spec_umodpow (val x) (val e) (val m)).
 Proof.
-  intros Hmul x e m Cx Ce Cm Hlen. unfold spec_umodpow, omap.
+  intros x e m Cx Ce Cm Hlen. unfold spec_umodpow, omap.
   rewrite r_umodpow_spec by auto using modpow_params_ok.
   destruct (Z.eqb_spec (val m) 0); [reflexivity|]. cbn [bind].
   rewrite powmod_correct by (auto; apply val_nonneg, Ce). reflexivity.
 Qed.
-Print Assumptions C05_umodpow_partial.
+Print Assumptions C05_umodpow.
 
-(* FULL STATEMENT: as below without the first hypothesis. *)
-Theorem C05_plain_modpow_partial : mul_spec_holds ->
+Theorem C05_plain_modpow :
   forall b e m, canon b -> canon e -> canon m -> val m <> 0 ->
   r_plain_modpow b e m = Ret (enc (if val e =? 0 then 1 else val b ^ val e mod val m)).
-Proof. intros Hmul; apply r_plain_modpow_spec; auto. Qed.
-Print Assumptions C05_plain_modpow_partial.
+Proof. apply r_plain_modpow_spec; auto. Qed.
+Print Assumptions C05_plain_modpow.
 
-(* FULL STATEMENT: as below without the first hypothesis. *)
-Theorem C05_imodpow_partial : mul_spec_holds ->
+Theorem C05_imodpow :
   forall x e m, icanon x -> icanon e -> icanon m -> Z.of_nat (length (mag m)) < 2 ^ 57 ->
   r_imodpow modpow x e m = omap ienc (spec_imodpow (ival x) (ival e) (ival m)).
 Proof.
-  intros Hmul x e m Hx He Hm Hlen. unfold spec_imodpow, omap.
+  intros x e m Hx He Hm Hlen. unfold spec_imodpow, omap.
   rewrite r_imodpow_spec by auto using modpow_params_ok.
   destruct (Z.ltb_spec (ival e) 0); [reflexivity|].
   destruct (Z.eqb_spec (ival m) 0); [reflexivity|]. cbn [bind].
   rewrite powmod_correct by auto. reflexivity.
 Qed.
-Print Assumptions C05_imodpow_partial.
+Print Assumptions C05_imodpow.
 
-(* FULL STATEMENT: as below without the first hypothesis.  (zero modulus => Panic ZeroModulus;
-   Some x / None characterised by C05_spec_umodinv_char + C05_modinv_determined) *)
-Theorem C05_umodinv_partial : mul_spec_holds ->
+(* zero modulus => Panic ZeroModulus; Some x / None characterised by C05_spec_umodinv_char +
+   C05_modinv_determined *)
+Theorem C05_umodinv :
   forall a m, canon a -> canon m ->
   r_umodinv a m = omap (option_map enc) (spec_umodinv (val a) (val m)).
-Proof. intros Hmul; apply r_umodinv_spec; auto. Qed.
-Print Assumptions C05_umodinv_partial.
+Proof. apply r_umodinv_spec; auto. Qed.
+Print Assumptions C05_umodinv.
 
-(* FULL STATEMENT: as below without the first hypothesis (includes the repaired m = +-1 case
-   and all four sign combinations). *)
-Theorem C05_imodinv_partial : mul_spec_holds ->
+(* includes the repaired m = +-1 case and all four sign combinations *)
+Theorem C05_imodinv :
   forall x m, icanon x -> icanon m ->
   r_imodinv modpow x m = omap (option_map ienc) (spec_imodinv (ival x) (ival m)).
-Proof. intros Hmul x m Hx Hm; apply r_imodinv_spec; auto using modpow_params_ok. Qed.
-Print Assumptions C05_imodinv_partial.
+Proof. intros x m Hx Hm; apply r_imodinv_spec; auto using modpow_params_ok. Qed.
+Print Assumptions C05_imodinv.
 
 (* Non-vacuity: a canonical two-digit odd modulus whose top digit is all ones, a base >= m of the
-   same length and a two-digit exponent; the Montgomery path runs and agrees with the spec. *)
+   same length and a two-digit exponent; the Montgomery path runs and agrees with the spec; an even
+   two-digit modulus (plain_modpow, real multiplication and division models). *)
 Example C05_nonvacuous :
   canonb [B - 3; B - 1] = true /\ canonb [B - 1; B - 1] = true /\ canonb [5; 1] = true /\
   Z.odd (val [B - 3; B - 1]) = true /\
   r_umodpow modpow [B - 1; B - 1] [5; 1] [B - 3; B - 1] =
     omap enc (spec_umodpow (val [B - 1; B - 1]) (val [5; 1]) (val [B - 3; B - 1])) /\
-  r_imodinv modpow (mkint Minus [5]) (mkint Minus [7]) = Ret (Some (mkint Minus [3])).
+  r_imodinv modpow (mkint Minus [5]) (mkint Minus [7]) = Ret (Some (mkint Minus [3])) /\
+  r_umodpow modpow [3; 1] [5] [10; 4] = omap enc (spec_umodpow (val [3; 1]) 5 (val [10; 4])).
 Proof.
   split; [vm_compute; reflexivity|]. split; [vm_compute; reflexivity|]. split; [vm_compute; reflexivity|].
-  split; [vm_compute; reflexivity|]. split; vm_compute; reflexivity.
+  split; [vm_compute; reflexivity|]. split; [vm_compute; reflexivity|]. split; vm_compute; reflexivity.
 Qed.
